@@ -474,7 +474,7 @@ def _apply_fn(src, w, op, fn, modname):
         w.insert(toks[b1].end, ' }', f'{label}#closure{kidx}', 'W5')
     # a closure of the real code that carries no contract tells the verifier nothing about its result: a failed obligation in
     # this function can then not be told from a lost proof (recorded like a lost hint: no violation without a failing input)
-    n_cls = len(src.closures(fn))
+    n_cls = len(src.closures(fn)) - len(op.get('w10', []))
     n_spec = len(op.get('closures', {})) - sum(1 for h in getattr(w, 'lost_hints', []) if h.startswith(f'{label}: closure #'))
     if op.get('attrs') and any('external' in a for a in op['attrs']):
         n_cls = 0
@@ -484,6 +484,9 @@ def _apply_fn(src, w, op, fn, modname):
         b_lo, b_hi = toks[body].end, toks[toks[body].match].start
         if pr.get('at_start'):
             w.insert(b_lo, ' ' + pr['text'].strip() + ' ', f'{label}#proof', 'W6')
+            continue
+        if pr.get('at_end'):
+            w.insert(b_hi, ' ' + pr['text'].strip() + ' ', f'{label}#proof', 'W6')
             continue
         if 'loop' in pr:
             # structural anchors relative to the k-th loop: body_start | body_end | after
@@ -534,6 +537,28 @@ def _apply_fn(src, w, op, fn, modname):
         for t in toks[body + 1:toks[body].match]:
             if t.kind == 'ident' and t.text == 'self':
                 w.rewrite(t.start, t.end, 'self_w9', f'{label}#w9')
+    for r10 in op.get('w10', []):
+        # W10: `let P = RECV.iter_mut().find(|x| PRED);`  =>  index loop + `Some(&mut v[i])` / `None`.
+        # vstd specifies slice::IterMut / Iterator::find only as "Some(x) => PRED(x)"; neither "first" nor "nothing else
+        # changes" is available, so the statement is rewritten to the loop std documents it as (assumption A-W10).
+        b_lo, b_hi = toks[body].end, toks[toks[body].match].start
+        region = text[b_lo:b_hi]
+        occ = [m_.start() for m_ in re.finditer(re.escape('.iter_mut().find('), region)]
+        if len(occ) != 1:
+            raise AnchorLost(f'{src.path}: W10 `{op["path"]}` has {len(occ)} `.iter_mut().find(` sites')
+        s0 = _stmt_start(toks, body, b_lo + occ[0])
+        s1 = _stmt_end(toks, body, b_lo + occ[0])
+        stmt = norm(text[s0:s1])
+        m = re.match(r'^let (\w+) = (.+?)\.iter_mut\(\)\.find\(\|(\w+)\| (.+)\);$', stmt)
+        if not m or '|' in m.group(4) or re.search(r'\b(return|break|continue)\b|\?', m.group(4)):
+            raise AnchorLost(f'{src.path}: W10 statement `{stmt}` is not `let P = E.iter_mut().find(|x| PRED);`')
+        p_, e_, x_, pred = m.groups()
+        inv = r10.get('spec', '').rstrip()
+        head = (f'let w10_v = {e_}; let mut w10_i: usize = 0; '
+                f'while w10_i < w10_v.len() && !{{ let {x_} = &w10_v[w10_i]; {pred} }}\n{inv}\n{{ w10_i += 1; }} '
+                f'let {p_} = if w10_i < w10_v.len() {{ Some(&mut w10_v[w10_i]) }} else {{ None }};')
+        w.rewrite(s0, s1, head, f'{label}#w10')
+        w.w10_closures = getattr(w, 'w10_closures', 0) + 1
     for r8 in op.get('w8', []):
         lps = src.loops(fn)
         if r8['loop'] >= len(lps):
